@@ -5,3 +5,7 @@ package resolve
 func verifPoint(point string, a, b uint64) {}
 
 func verifBool(v bool) uint64 { return 0 }
+
+func verifFetchID(item *FetchItem) uint64 { return 0 }
+
+func verifErrCount(l *Loader) uint64 { return 0 }
